@@ -13,21 +13,24 @@
 EXTENDS Integers, Sequences, FiniteSets, TLC
 CONSTANTS Writers,        \* writer processes; each sends one message of Frames[w] frames
           TwoFrame,       \* writers that stream their message in two frames (Writer); the others use Write
-          Dev,            \* subset of {"DataAfterClose", "EchoAfterOwnClose", "NoRecheck"}
+          Dev,            \* subset of {"DataAfterClose", "EchoAfterOwnClose", "NoRecheck", "NoRearm", "CloseNowWaits", "BlockingCloseMu"}
           PeerMay,        \* subset of {"ping", "pong", "fpong", "data", "close", "echo"}
-          CtxProcs        \* calls whose context the application may cancel at any moment (C10); {} switches this part off
-K == "K"  R == "R"  P == "P"
+          CtxProcs,       \* calls whose context the application may cancel at any moment (C10); {} switches this part off
+          Extra,          \* subset of {"N", "CR"}: a concurrent CloseNow; the CloseRead goroutine (then it, not R, is the reader)
+          Timers          \* subset of {"T5lock", "T5wait"}: the 5 s timers of waitCloseHandshake that may fire ({} = "promptly")
+K == "K"  R == "R"  P == "P"  N == "N"  CR == "CR"
 FramesOf == [w \in Writers |-> IF w \in TwoFrame THEN 2 ELSE 1]
-Procs == Writers \cup {K, R, P}
+Procs == Writers \cup {K, R, P} \cup Extra
 VARIABLES closed, closing, sentClose, lk, out, emitting, inq, pc, pingActive, pongSig, peerDid, ret, tl, wframe,
           armedW,      \* the call whose context the timeoutLoop currently watches for writes ("none" = Background)
           cancelled,   \* calls whose context the application has cancelled
           fired        \* the call whose context made the timeoutLoop close the connection
 vars == <<closed, closing, sentClose, lk, out, emitting, inq, pc, pingActive, pongSig, peerDid, ret, tl, wframe, armedW, cancelled, fired>>
-Locks == {"msg", "wf", "rd"}
+Locks == {"msg", "wf", "rd", "cm"}      \* cm = closeMu
 Init == /\ closed = FALSE /\ closing = FALSE /\ sentClose = FALSE
         /\ lk = [l \in Locks |-> "free"] /\ out = <<>> /\ emitting = "none" /\ inq = <<>>
-        /\ pc = [p \in Procs |-> CASE p = K -> "k_cas" [] p = R -> "r_lock" [] p = P -> "p_reg" [] OTHER -> "w_msglock"]
+        /\ pc = [p \in Procs |-> CASE p = K -> "k_cas" [] p = R -> (IF CR \in Extra THEN "r_done" ELSE "r_lock") [] p = P -> "p_reg"
+                                   [] p = N -> "n_cas" [] p = CR -> "c_lock" [] OTHER -> "w_msglock"]
         /\ pingActive = FALSE /\ pongSig = FALSE /\ peerDid = {} /\ ret = [p \in Procs |-> "none"]
         /\ tl = "running" /\ wframe = [w \in Writers |-> 1]
         /\ armedW = "none" /\ cancelled = {} /\ fired = "none"
@@ -43,7 +46,7 @@ Unlock(l) == lk' = [lk EXCEPT ![l] = "free"]        \* not owner-checked, as in 
 ----------------------------------------------------------------------------
 (* the frame path shared by every process: <st>_wflock, _arm, _hdr, _pay, _disarm, _wfunlock *)
 Kind(p, st) == CASE p \in Writers -> "data" [] p = P -> "ping"
-                 [] p = R /\ st = "rpong" -> "pong" [] p = K /\ st = "kpong" -> "pong" [] OTHER -> "close"
+                 [] st \in {"rpong", "kpong", "cpong", "dpong"} -> "pong" [] OTHER -> "close"
 FrameLock(p, st, after) == /\ pc[p] = st \o "_wflock" /\ TryLock(p, "wf", st \o "_arm", after)
                            /\ ret' = IF pc'[p] = after /\ p \in CtxProcs THEN [ret EXCEPT ![p] = "failed"] ELSE ret
                            /\ U(<<closed, closing, sentClose, out, emitting, inq, pingActive, pongSig, peerDid, tl, wframe, armedW, cancelled, fired>>)
@@ -97,54 +100,85 @@ PWait == /\ pc[P] = "p_wait"
          /\ pingActive' = FALSE /\ Goto(P, "p_done")
          /\ U(<<closed, closing, sentClose, lk, out, emitting, inq, pongSig, peerDid, tl, wframe, armedW, cancelled, fired>>)
 Pinger == PReg \/ Frame(P, "p", "p_wait") \/ PWait
-(* close(): closeMu makes check-and-flip atomic; then the forceLocks of msgWriter/msgReader.close *)
-DoClose(p, st, after) ==
-   \/ /\ pc[p] = st \o "_cl0"
-      /\ IF closed THEN Goto(p, after) /\ U(closed) ELSE closed' = TRUE /\ Goto(p, st \o "_cl1")
-      /\ U(<<closing, sentClose, lk, out, emitting, inq, pingActive, pongSig, peerDid, ret, tl, wframe, armedW, cancelled, fired>>)
-   \/ /\ pc[p] = st \o "_cl1" /\ lk["wf"] = "free" /\ lk' = [lk EXCEPT !["wf"] = "close"] /\ Goto(p, st \o "_cl2")
-      /\ U(<<closed, closing, sentClose, out, emitting, inq, pingActive, pongSig, peerDid, ret, tl, wframe, armedW, cancelled, fired>>)
-   \/ /\ pc[p] = st \o "_cl2" /\ lk["rd"] = "free" /\ lk' = [lk EXCEPT !["rd"] = "close"] /\ Goto(p, after)
-      /\ U(<<closed, closing, sentClose, out, emitting, inq, pingActive, pongSig, peerDid, ret, tl, wframe, armedW, cancelled, fired>>)
+(* close() = closeWith(false): closeMu; check-and-flip of the closed flag; the forceLocks of msgWriter.close and of readMu;   *)
+(* release.  closeWith(true) is the read loop closing the connection after a Close frame while it holds readMu: it may only   *)
+(* TRY closeMu, because whoever holds closeMu may be waiting for readMu; when the try fails it releases readMu first and then  *)
+(* goes the ordinary way (labels st \o "f").  Dev "BlockingCloseMu" is the first version of that fix: it waits.                *)
+Rest == <<closed, closing, sentClose, out, emitting, inq, pingActive, pongSig, peerDid, ret, tl, wframe, armedW, cancelled, fired>>
+CmAcquire(p, st) == /\ pc[p] = st \o "_cl0" /\ lk["cm"] = "free" /\ lk' = [lk EXCEPT !["cm"] = p] /\ Goto(p, st \o "_clA") /\ U(Rest)
+CmFlip(p, st) == /\ pc[p] = st \o "_clA"
+                 /\ IF closed THEN Goto(p, st \o "_clZ") /\ U(closed) ELSE closed' = TRUE /\ Goto(p, st \o "_cl1")
+                 /\ U(<<closing, sentClose, lk, out, emitting, inq, pingActive, pongSig, peerDid, ret, tl, wframe, armedW, cancelled, fired>>)
+CmForceWf(p, st) == /\ pc[p] = st \o "_cl1" /\ lk["wf"] = "free" /\ lk' = [lk EXCEPT !["wf"] = "close"] /\ Goto(p, st \o "_cl2") /\ U(Rest)
+CmForceRd(p, st, holdsRd) == /\ pc[p] = st \o "_cl2" /\ Goto(p, st \o "_clZ") /\ U(Rest)
+                             /\ IF holdsRd THEN U(lk) ELSE lk["rd"] = "free" /\ lk' = [lk EXCEPT !["rd"] = "close"]
+CmRelease(p, st, after) == /\ pc[p] = st \o "_clZ" /\ lk' = [lk EXCEPT !["cm"] = "free"] /\ Goto(p, after) /\ U(Rest)
+DoClose(p, st, after) == CmAcquire(p, st) \/ CmFlip(p, st) \/ CmForceWf(p, st) \/ CmForceRd(p, st, FALSE) \/ CmRelease(p, st, after)
+DoCloseRd(p, st, after) ==
+   \/ /\ pc[p] = st \o "_cl0" /\ U(Rest)
+      /\ IF lk["cm"] = "free" THEN lk' = [lk EXCEPT !["cm"] = p] /\ Goto(p, st \o "_clA")
+         ELSE "BlockingCloseMu" \notin Dev /\ lk' = [lk EXCEPT !["rd"] = "free"] /\ Goto(p, st \o "f_cl0")
+   \/ CmFlip(p, st) \/ CmForceWf(p, st) \/ CmForceRd(p, st, TRUE) \/ CmRelease(p, st, after)
+   \/ DoClose(p, st \o "f", after)
+(* casClosing: only one of Close, CloseNow and the CloseRead goroutine wins *)
+Cas(p, at, win, lose) == /\ pc[p] = at
+                         /\ IF closing THEN Goto(p, lose) /\ U(closing) ELSE closing' = TRUE /\ Goto(p, win)
+                         /\ U(<<closed, sentClose, lk, out, emitting, inq, pingActive, pongSig, peerDid, ret, tl, wframe, armedW, cancelled, fired>>)
+(* waitGoroutines: timeoutLoopDone, closeReadDone (if CloseRead was called), closed *)
+WgDone == tl = "exited" /\ closed /\ (CR \in Extra => pc[CR] = "c_done")
 (* what a reader (R, or K inside waitCloseHandshake) does with the next inbound frame *)
-ReadFrame(p, st) ==
+ReadFrame(p, st, onData) ==
    /\ pc[p] = st \o "_hdr_in" /\ inq # <<>> /\ inq' = Tail(inq)
    /\ CASE Head(inq) = "ping"  -> Goto(p, st \o "pong_wflock") /\ U(pongSig)
         [] Head(inq) = "pong"  -> pongSig' = (pongSig \/ pingActive) /\ Goto(p, st \o "_hdr_in")
         [] Head(inq) = "fpong" -> U(pongSig) /\ Goto(p, st \o "_hdr_in")       \* foreign payload: ignored
-        [] Head(inq) = "data"  -> Goto(p, st \o "_hdr_in") /\ U(pongSig)
+        [] Head(inq) = "data"  -> Goto(p, onData) /\ U(pongSig)
         [] Head(inq) = "close" -> Goto(p, st \o "echo_wflock") /\ U(pongSig)
    /\ U(<<closed, closing, sentClose, lk, out, emitting, pingActive, peerDid, ret, tl, wframe, armedW, cancelled, fired>>)
-ReaderBody(p, st, after) ==
-   \/ ReadFrame(p, st)
+ReaderBody(p, st, after, onData) ==
+   \/ ReadFrame(p, st, onData)
    \/ /\ pc[p] = st \o "_hdr_in" /\ closed /\ Goto(p, st \o "_rdunlock")       \* a blocked read is woken by close
       /\ U(<<closed, closing, sentClose, lk, out, emitting, inq, pingActive, pongSig, peerDid, ret, tl, wframe, armedW, cancelled, fired>>)
    \/ Frame(p, st \o "pong", st \o "_hdr_in")
-   \/ Frame(p, st \o "echo", st \o "_rdunlock2")
-   \/ /\ pc[p] = st \o "_rdunlock2" /\ Unlock("rd") /\ Goto(p, st \o "x_cl0")  \* handleControl: unlock, then close()
-      /\ U(<<closed, closing, sentClose, out, emitting, inq, pingActive, pongSig, peerDid, ret, tl, wframe, armedW, cancelled, fired>>)
-   \/ DoClose(p, st \o "x", st \o "_rdunlock")
+   \/ Frame(p, st \o "echo", st \o "x_cl0")
+   \/ DoCloseRd(p, st \o "x", st \o "_rdunlock")                                \* handleControl: closeWith(true), readMu still held
    \/ /\ pc[p] = st \o "_rdunlock" /\ Unlock("rd") /\ Goto(p, after)             \* deferred unlock
       /\ U(<<closed, closing, sentClose, out, emitting, inq, pingActive, pongSig, peerDid, ret, tl, wframe, armedW, cancelled, fired>>)
 RLock == /\ pc[R] = "r_lock" /\ TryLock(R, "rd", "r_hdr_in", "r_done")
          /\ U(<<closed, closing, sentClose, out, emitting, inq, pingActive, pongSig, peerDid, ret, tl, wframe, armedW, cancelled, fired>>)
-Reader == RLock \/ ReaderBody(R, "r", "r_done")
+Reader == RLock \/ ReaderBody(R, "r", "r_done", "r_hdr_in")
 (* Close: casClosing, writeClose, waitCloseHandshake (5 s lock wait, 5 s read wait), close(), waitGoroutines *)
-KCas == /\ pc[K] = "k_cas" /\ closing' = TRUE /\ Goto(K, "k1_wflock")
-        /\ U(<<closed, sentClose, lk, out, emitting, inq, pingActive, pongSig, peerDid, ret, tl, wframe, armedW, cancelled, fired>>)
-KWaitLock == /\ pc[K] = "k_waitlock"
-             /\ \/ TryLock(K, "rd", "k_hdr_in", "k_cl0pre")
-                \/ lk["rd"] # "free" /\ ~closed /\ Goto(K, "k_cl0pre") /\ U(lk)       \* 5 s lock timeout
+WaitLock(p, at, ok, fail) == /\ pc[p] = at
+             /\ \/ TryLock(p, "rd", ok, fail)
+                \/ "T5lock" \in Timers /\ lk["rd"] # "free" /\ ~closed /\ Goto(p, fail) /\ U(lk)       \* 5 s lock timeout
              /\ U(<<closed, closing, sentClose, out, emitting, inq, pingActive, pongSig, peerDid, ret, tl, wframe, armedW, cancelled, fired>>)
-KT5 == /\ pc[K] = "k_hdr_in" /\ inq = <<>> /\ ~closed /\ Goto(K, "k_rdunlock")       \* 5 s wait for the peer's Close
-       /\ U(<<closed, closing, sentClose, lk, out, emitting, inq, pingActive, pongSig, peerDid, ret, tl, wframe, armedW, cancelled, fired>>)
+T5(p, st) == /\ "T5wait" \in Timers /\ pc[p] = st \o "_hdr_in" /\ inq = <<>> /\ ~closed /\ Goto(p, st \o "_rdunlock")   \* 5 s wait for the peer's Close
+             /\ U(<<closed, closing, sentClose, lk, out, emitting, inq, pingActive, pongSig, peerDid, ret, tl, wframe, armedW, cancelled, fired>>)
 KPre == /\ pc[K] = "k_cl0pre" /\ Goto(K, "k_cl0")
         /\ U(<<closed, closing, sentClose, lk, out, emitting, inq, pingActive, pongSig, peerDid, ret, tl, wframe, armedW, cancelled, fired>>)
-KWaitGor == /\ pc[K] = "k_wg" /\ tl = "exited" /\ Goto(K, "k_done")                   \* waitGoroutines: timeoutLoopDone
-            /\ ret' = [ret EXCEPT ![K] = "returned"]
+WaitGor(p, at, done, val) == /\ pc[p] = at /\ WgDone /\ Goto(p, done) /\ ret' = [ret EXCEPT ![p] = val]
             /\ U(<<closed, closing, sentClose, lk, out, emitting, inq, pingActive, pongSig, peerDid, tl, wframe, armedW, cancelled, fired>>)
-Closer == KCas \/ Frame(K, "k1", "k_waitlock") \/ KWaitLock \/ KT5 \/ ReaderBody(K, "k", "k_cl0pre") \/ KPre
-          \/ DoClose(K, "k", "k_wg") \/ KWaitGor
+Closer == Cas(K, "k_cas", "k1_wflock", "kl_wg") \/ Frame(K, "k1", "k_waitlock") \/ WaitLock(K, "k_waitlock", "k_hdr_in", "k_cl0pre")
+          \/ T5(K, "k") \/ ReaderBody(K, "k", "k_cl0pre", "k_hdr_in") \/ KPre
+          \/ DoClose(K, "k", "k_wg") \/ WaitGor(K, "k_wg", "k_done", "returned") \/ WaitGor(K, "kl_wg", "k_done", "errClosed")
+(* CloseNow: casClosing; close() whether it won or not (Dev "CloseNowWaits": the loser only waited); waitGoroutines *)
+CloseNower == /\ N \in Extra
+              /\ \/ Cas(N, "n_cas", "n_cl0", IF "CloseNowWaits" \in Dev THEN "nl_wg" ELSE "nl_cl0")
+                 \/ DoClose(N, "n", "n_wg") \/ DoClose(N, "nl", "nl_wg")
+                 \/ WaitGor(N, "n_wg", "n_done", "returned") \/ WaitGor(N, "nl_wg", "n_done", "errClosed")
+(* the CloseRead goroutine: Reader(ctx); a data message makes it (if it wins casClosing) run the close handshake with 1008;   *)
+(* in every case its deferred close() runs, then its context is cancelled and closeReadDone closed (pc = "c_done").            *)
+CRUnlock(at, to) == /\ pc[CR] = at /\ Unlock("rd") /\ Goto(CR, to)
+                    /\ U(<<closed, closing, sentClose, out, emitting, inq, pingActive, pongSig, peerDid, ret, tl, wframe, armedW, cancelled, fired>>)
+CloseReader == /\ CR \in Extra
+               /\ \/ (pc[CR] = "c_lock" /\ TryLock(CR, "rd", "c_hdr_in", "c_cl0")
+                        /\ U(<<closed, closing, sentClose, out, emitting, inq, pingActive, pongSig, peerDid, ret, tl, wframe, armedW, cancelled, fired>>))
+                  \/ ReaderBody(CR, "c", "c_cl0", "c_rdunlockD")
+                  \/ CRUnlock("c_rdunlockD", "c_cas")                         \* Reader returned the message: its deferred unlock
+                  \/ Cas(CR, "c_cas", "c1_wflock", "c_cl0")
+                  \/ Frame(CR, "c1", "d_waitlock") \/ WaitLock(CR, "d_waitlock", "d_hdr_in", "c_cl0")
+                  \/ T5(CR, "d") \/ ReaderBody(CR, "d", "c_cl0", "d_hdr_in")
+                  \/ DoClose(CR, "c", "c_done")
 (* timeoutLoop goroutine: leaves once the connection is closed *)
 TLExit == /\ tl = "running" /\ closed /\ tl' = "exited"
           /\ U(<<closed, closing, sentClose, lk, out, emitting, inq, pc, pingActive, pongSig, peerDid, ret, wframe, armedW, cancelled, fired>>)
@@ -162,7 +196,7 @@ PeerAct(a, f) == /\ a \in PeerMay /\ a \notin peerDid /\ Len(inq) < 2 /\ inq' = 
 SawOut(kind) == \E i \in 1..Len(out) : out[i].k = kind /\ out[i].part = "pay"
 Peer == \/ PeerAct("ping", "ping") \/ PeerAct("data", "data") \/ PeerAct("close", "close") \/ PeerAct("fpong", "fpong")
         \/ (SawOut("ping") /\ PeerAct("pong", "pong")) \/ (SawOut("close") /\ PeerAct("echo", "close"))
-Lib == (\E w \in Writers : Writer(w)) \/ Pinger \/ Reader \/ Closer \/ TLExit \/ TLFireW
+Lib == (\E w \in Writers : Writer(w)) \/ Pinger \/ Reader \/ Closer \/ CloseNower \/ CloseReader \/ TLExit \/ TLFireW
 App == \E p \in CtxProcs : CtxCancel(p)
 Next == Lib \/ Peer \/ App
 Spec == Init /\ [][Next]_vars /\ WF_vars(Lib)
@@ -186,12 +220,19 @@ EmitterHoldsLock == emitting # "none" => lk["wf"] = emitting
 PingNilOnlyAfterPong == ret[P] = "nil" => "pong" \in peerDid
 PongOnlyForPing == \A i \in 1..Len(Hdrs) : Hdrs[i].k = "pong" => "ping" \in peerDid
 (* C20: when Close has returned the timeoutLoop goroutine is gone; C06: and the connection is closed *)
-CloseReturnedClean == ret[K] = "returned" => tl = "exited" /\ closed
+CloseReturnedClean == \A p \in {K, N} \cap Procs : ret[p] \in {"returned", "errClosed"} => WgDone
+(* C06: of concurrent Close/CloseNow calls at most one reports success, the others net.ErrClosed *)
+AtMostOneWinner == Cardinality({p \in {K, N} \cap Procs : ret[p] = "returned"}) <= 1
 (* C10: the context of a call that returned successfully never closes the connection; and whenever no frame is in flight the   *)
 (* timeoutLoop watches Background                                                                                              *)
 Harmless == fired # "none" => ret[fired] \notin {"ok", "nil"}
 ArmedOnlyInFrame == armedW # "none" => (\E st \in {"w", "p"} : pc[armedW] \in {st \o "_hdr", st \o "_pay", st \o "_disarm"}) \/ closed \/ "NoRearm" \in Dev
 (* C09 (with the 5 s timers KWaitLock/KT5 as the only timers): Close ends, every call returns *)
 CloseTerminates == <>(pc[K] = "k_done")
-AllReturn == <>[](\A p \in Procs : pc[p] \in {"w_done", "p_done", "r_done", "k_done"})
+Done == {"w_done", "p_done", "r_done", "k_done", "n_done", "c_done"}
+AllReturn == <>[](\A p \in Procs : pc[p] \in Done)
+(* C09 with Timers = {}: CloseNow needs no timer; once the connection is closed every call returns and the CloseRead goroutine *)
+(* ends (its context is cancelled) without any timer                                                                           *)
+CloseNowPrompt == N \in Extra => <>(pc[N] = "n_done")
+ClosedUnblocksAll == closed ~> (\A p \in Procs : pc[p] \in Done)
 =============================================================================
